@@ -559,6 +559,9 @@ def locked_writes():
             self.generic_visit(node)
 
     V().visit(tree)
-    return {"verdict": "CONFIRMED" if not bad and n_writes >= 4 else "REFUTED", "queries": n_writes,
-            "detail": "unlocked writes: " + ", ".join(bad) if bad else f"{n_writes} writes, all under the inner lock",
-            "reproduced": bool(bad)}
+    # a SUFFICIENT condition for the action-induction argument (atomic actions = critical sections of the inner lock).  If it fails the induction lemmas
+    # no longer cover the code, but nothing has been shown to go wrong: that is INCONCLUSIVE, never a violation - the scenario lemmas, which run
+    # other threads right after the inner lock is released, are the ones that can exhibit a concrete failing schedule.
+    return {"verdict": "CONFIRMED" if not bad and n_writes >= 4 else "UNKNOWN", "queries": n_writes,
+            "detail": ("side condition of the induction argument not met - unlocked accesses: " + ", ".join(bad)) if bad else f"{n_writes} writes, all under the inner lock",
+            "reproduced": False}
